@@ -231,6 +231,10 @@ fn scenarios() -> Vec<(String, String, bool)> {
         let cmp = !f.ends_with("_kmer");
         v.push((f, c, cmp));
     }
+    // sketches loaded from accepted-but-unusual documents, handed to every export that takes a sketch handle
+    for (f, c) in loaded_scenarios() {
+        v.push((f, c, true));
+    }
     let mut addv = |f: &str, cls: Vec<String>, cmp: bool| {
         for c in cls {
             v.push((f.to_string(), c, cmp));
@@ -656,9 +660,27 @@ fn gen(a: &Args) {
             o.op(&format!("call {} {} {} {}", f, cls, if *cmp { "cmp" } else { "nocmp" }, seed));
         }
     }
+    // loaded objects: one case per document class; the seed varies sizes and values, never the class's shape
+    cur = String::new();
+    for d in LOADED_DOCS {
+        for (f, cls, cmp) in &sc {
+            let Some(rest) = cls.strip_prefix("loaded_") else { continue };
+            if rest.split('_').next() != Some(*d) || in_corpus_only(f, cls) {
+                continue;
+            }
+            if *d != cur {
+                o.case(&format!("call-loaded {}", d));
+                cur = d.to_string();
+            }
+            for i in 0..(if thorough { 8 } else { 2 }) {
+                let seed = if i == 0 { 0 } else { r.bits(32) };
+                o.op(&format!("call {} {} {} {}", f, cls, if *cmp { "cmp" } else { "nocmp" }, seed));
+            }
+        }
+    }
     cur = String::new();
     for (f, cls, cmp) in &sc {
-        if in_corpus_only(f, cls) || long_cls(cls).is_some() {
+        if in_corpus_only(f, cls) || long_cls(cls).is_some() || cls.starts_with("loaded_") {
             continue;
         }
         if *f != cur {
@@ -1329,7 +1351,7 @@ fn dangling<T>() -> *const T {
 }
 
 unsafe fn run_call(f: &str, cls: &str, r: &mut Rng) -> Cmp {
-    for fam in [call_cp, call_misc, call_hll, call_mh, call_mh_bin, call_ng, call_sig, call_zip, call_rev] {
+    for fam in [call_loaded, call_cp, call_misc, call_hll, call_mh, call_mh_bin, call_ng, call_sig, call_zip, call_rev] {
         if let Some(x) = fam(f, cls, r) {
             return x;
         }
@@ -2473,6 +2495,579 @@ unsafe fn call_mh_bin(f: &str, cls: &str, r: &mut Rng) -> Option<Cmp> {
     };
     kmerminhash_free(x);
     kmerminhash_free(y);
+    Some(c(ok))
+}
+
+// ---- loaded objects: sketches that came out of an accepted-but-unusual serialized document ------------------
+/// Documents `signatures_load_buffer` ACCEPTS although no writer produces them.  The sketch objects they
+/// yield are then handed to every export that takes a sketch handle.
+///   plain            sorted mins, as many abundances (control)
+///   shortab          sorted mins, FEWER abundances (1 .. n-1)          shortab0  sorted mins, `"abundances":[]`
+///   longab           sorted mins, MORE abundances
+///   unsorted         mins out of order, as many abundances             unsortedshortab  out of order and fewer abundances
+///   dups / dupsnoab  repeated mins (sorted with abundances / out of order without)
+///   noab             mins out of order, no abundances field
+///   emptymins        `"mins":[]` next to three abundances
+///   numandmax        num = 5 AND max_hash set (more than 5 mins)      numover  num = 3 with more than 3 mins
+///   abovemax         max_hash = 1000 with mins up to u64::MAX          hugeab   abundances at and just below u64::MAX
+///   bogusmd5         plain, the md5sum field is not an md5                numhuge  num = u32::MAX, max_hash 0
+const LOADED_DOCS: &[&str] = &[
+    "plain", "shortab", "shortab0", "longab", "unsorted", "unsortedshortab", "dups", "dupsnoab", "noab", "emptymins", "numandmax", "numover",
+    "abovemax", "hugeab", "bogusmd5", "numhuge",
+];
+/// exports taking ONE sketch handle and a hash: variants `first` / `last` (a late position) / `absent`
+const LOADED_HASH_FNS: &[&str] = &["kmerminhash_add_hash", "kmerminhash_add_hash_with_abundance", "kmerminhash_remove_hash"];
+/// exports taking the sketch handle only (or the handle and fixed extra arguments)
+const LOADED_UNARY_FNS: &[&str] = &[
+    "kmerminhash_add_many", "kmerminhash_remove_many", "kmerminhash_set_abundances", "kmerminhash_add_word", "kmerminhash_add_sequence",
+    "kmerminhash_clear", "kmerminhash_md5sum", "kmerminhash_get_mins", "kmerminhash_get_mins_size", "kmerminhash_get_abunds",
+    "kmerminhash_num", "kmerminhash_max_hash", "kmerminhash_track_abundance", "kmerminhash_enable_abundance", "kmerminhash_disable_abundance",
+    "kmerminhash_hash_function_set", "hll_update_mh", "hll_matches", "nodegraph_update_mh", "nodegraph_matches", "signature_first_mh",
+    "signature_get_mhs", "signature_push_mh", "signature_set_mh", "signature_save_json", "signatures_save_buffer", "signature_eq", "signature_len",
+];
+/// exports taking two sketch handles: variants `self` (a second copy of the same loaded object) / `other`
+/// (a well-formed loaded sketch with the same header that shares the first and the last hash)
+const LOADED_BIN_FNS: &[&str] = &[
+    "kmerminhash_merge", "kmerminhash_add_from", "kmerminhash_remove_from", "kmerminhash_count_common", "kmerminhash_intersection",
+    "kmerminhash_intersection_union_size", "kmerminhash_jaccard", "kmerminhash_similarity", "kmerminhash_angular_similarity", "kmerminhash_is_compatible",
+];
+fn loaded_scenarios() -> Vec<(String, String)> {
+    let mut v = vec![];
+    for d in LOADED_DOCS {
+        for f in LOADED_HASH_FNS {
+            for pos in ["first", "last", "absent"] {
+                v.push((f.to_string(), format!("loaded_{}_{}", d, pos)));
+            }
+        }
+        for f in LOADED_UNARY_FNS {
+            v.push((f.to_string(), format!("loaded_{}", d)));
+        }
+        for f in LOADED_BIN_FNS {
+            for o in ["self", "other"] {
+                v.push((f.to_string(), format!("loaded_{}_{}", d, o)));
+            }
+        }
+    }
+    v
+}
+struct LoadedDoc {
+    num: u32,
+    max_hash: u64,
+    mins: Vec<u64>,
+    abunds: Option<Vec<u64>>,
+    md5: String,
+}
+impl LoadedDoc {
+    fn json(&self) -> String {
+        let list = |v: &[u64]| v.iter().map(|x| x.to_string()).collect::<Vec<_>>().join(",");
+        let ab = match &self.abunds {
+            Some(a) => format!(",\"abundances\":[{}]", list(a)),
+            None => String::new(),
+        };
+        format!(
+            "[{{\"class\":\"sourmash_signature\",\"email\":\"\",\"hash_function\":\"0.murmur64\",\"filename\":\"f.fa\",\"name\":\"loaded\",\"license\":\"CC0\",\"signatures\":[{{\"num\":{},\"ksize\":21,\"seed\":42,\"max_hash\":{},\"mins\":[{}],\"md5sum\":\"{}\"{},\"molecule\":\"DNA\"}}],\"version\":0.4}}]",
+            self.num, self.max_hash, list(&self.mins), self.md5, ab
+        )
+    }
+}
+fn shuffle(v: &mut Vec<u64>, r: &mut Rng) {
+    for i in (1..v.len()).rev() {
+        let j = r.below(i as u64 + 1) as usize;
+        v.swap(i, j);
+    }
+    if v.windows(2).all(|w| w[0] <= w[1]) {
+        v.reverse();
+    }
+}
+/// (the document of class `doc`, a well-formed companion with the same header sharing its first and last hash)
+fn loaded_doc(doc: &str, r: &mut Rng) -> Option<(LoadedDoc, LoadedDoc)> {
+    if !LOADED_DOCS.contains(&doc) {
+        return None;
+    }
+    let n = r.range(6, 14) as usize;
+    let mut base: Vec<u64> = vec![];
+    while base.len() < n {
+        let h = if doc == "abovemax" && base.len() < 3 { r.range(1, 1000) } else { r.range(1001, 1 << 40) };
+        if !base.contains(&h) {
+            base.push(h);
+        }
+    }
+    if doc == "abovemax" {
+        base.push(u64::MAX);
+        base.push(u64::MAX - 1);
+    }
+    base.sort();
+    let n = base.len();
+    let small = |r: &mut Rng, k: usize| -> Vec<u64> { (0..k).map(|_| r.range(1, 50)).collect() };
+    let md5 = {
+        let mut m = KmerMinHash::new(1, 21, nhf(1), 42, false, 0);
+        for h in &base {
+            m.add_hash(*h);
+        }
+        m.md5sum()
+    };
+    let mut d = LoadedDoc { num: 0, max_hash: u64::MAX, mins: base.clone(), abunds: Some(small(r, n)), md5 };
+    match doc {
+        "plain" => {}
+        "shortab" => {
+            let k = *r.pick(&[1, n / 2, n - 1]);
+            d.abunds = Some(small(r, k))
+        }
+        "shortab0" => d.abunds = Some(vec![]),
+        "longab" => {
+            let k = n + r.range(1, 5) as usize;
+            d.abunds = Some(small(r, k))
+        }
+        "unsorted" => shuffle(&mut d.mins, r),
+        "unsortedshortab" => {
+            shuffle(&mut d.mins, r);
+            d.abunds = Some(small(r, n - 2));
+        }
+        "dups" | "dupsnoab" => {
+            let mut m = vec![];
+            for (i, h) in base.iter().enumerate() {
+                for _ in 0..(if i == 0 || i == n - 1 { 2 } else { r.range(1, 3) }) {
+                    m.push(*h);
+                }
+            }
+            d.abunds = if doc == "dups" { Some(small(r, m.len())) } else { None };
+            if doc == "dupsnoab" {
+                shuffle(&mut m, r);
+            }
+            d.mins = m;
+        }
+        "noab" => {
+            shuffle(&mut d.mins, r);
+            d.abunds = None;
+        }
+        "emptymins" => {
+            d.mins = vec![];
+            d.abunds = Some(vec![1, 2, 3]);
+        }
+        "numandmax" => d.num = 5,
+        "numover" => {
+            d.num = 3;
+            d.max_hash = 0;
+        }
+        "abovemax" => d.max_hash = 1000,
+        "numhuge" => {
+            d.num = u32::MAX;
+            d.max_hash = 0;
+        }
+        "hugeab" => {
+            let mut a: Vec<u64> = (0..n).map(|_| u64::MAX - r.below(3)).collect();
+            a[0] = u64::MAX;
+            a[n - 1] = u64::MAX;
+            d.abunds = Some(a);
+        }
+        "bogusmd5" => d.md5 = "not-an-md5".into(),
+        _ => return None,
+    }
+    // the companion: a document any writer could have produced, same header, same abundance tracking
+    let mut om: Vec<u64> = vec![];
+    if let (Some(a), Some(b)) = (base.first(), base.last()) {
+        om.push(*a);
+        om.push(*b);
+    }
+    for h in base.iter().skip(1).step_by(2) {
+        om.push(*h);
+    }
+    for _ in 0..5 {
+        om.push(if doc == "abovemax" { r.range(1, 1000) } else { r.range(1001, 1 << 40) });
+    }
+    om.sort();
+    om.dedup();
+    if d.num != 0 && d.max_hash == 0 {
+        om.truncate(d.num as usize);
+    }
+    if doc == "abovemax" {
+        om.retain(|h| *h <= 1000);
+    }
+    let oa = d.abunds.as_ref().map(|_| small(r, om.len()));
+    let o = LoadedDoc { num: d.num, max_hash: d.max_hash, mins: om, abunds: oa, md5: "0".repeat(32) };
+    Some((d, o))
+}
+/// the document through the C API: (signature handle, handle of its first sketch)
+unsafe fn load_ffi(json: &str) -> Option<(SIG, MH)> {
+    let mut sz = 0usize;
+    let p = signatures_load_buffer(json.as_ptr() as *const c_char, json.len(), false, 0, ptr::null(), &mut sz);
+    if p.is_null() || sz != 1 {
+        return None;
+    }
+    let sigs = take_slice(p as *const SIG, sz);
+    let m = signature_first_mh(sigs[0]);
+    if m.is_null() {
+        return None;
+    }
+    Some((sigs[0], m))
+}
+fn load_native(json: &str) -> Option<(Signature, KmerMinHash)> {
+    let v = Signature::load_signatures(json.as_bytes(), None, None, None).ok()?;
+    let s = v.into_iter().next()?;
+    let m = match s.sketches().first() {
+        Some(Sketch::MinHash(m)) => m.clone(),
+        _ => return None,
+    };
+    Some((s, m))
+}
+/// what the C API itself says about the object: the lengths it hands out agree with each other
+unsafe fn mh_consistent(m: MH) -> bool {
+    let mut a = 0usize;
+    let p = kmerminhash_get_mins(m, &mut a);
+    let mins = take_slice(p, a);
+    let mut ok = !p.is_null() && kmerminhash_get_mins_size(m) == a && mins.windows(2).all(|w| w[0] <= w[1]);
+    if kmerminhash_track_abundance(m) {
+        let mut b = 0usize;
+        let q = kmerminhash_get_abunds(m, &mut b);
+        let _ = take_slice(q, b);
+        ok &= !q.is_null() && a == b;
+    }
+    ok
+}
+unsafe fn call_loaded(f: &str, cls: &str, r: &mut Rng) -> Option<Cmp> {
+    let rest = cls.strip_prefix("loaded_")?;
+    let (doc, var) = match rest.split_once('_') {
+        Some((d, v)) => (d, v),
+        None => (rest, ""),
+    };
+    let (d, o) = loaded_doc(doc, r)?;
+    let (dj, oj) = (d.json(), o.json());
+    // both routes read the same bytes
+    let Some((nsig, mut n)) = load_native(&dj) else { return Some(Cmp::Diff) };
+    let Some((sig, m)) = load_ffi(&dj) else { return Some(Cmp::Diff) };
+    let mut ok = mh_eq(m, &n) && sig_same(sig, &nsig) && mh_consistent(m);
+    // the hash argument
+    let distinct: Vec<u64> = n.mins();
+    let x = match var {
+        "first" => distinct.first().copied().unwrap_or(5),
+        "last" => distinct.last().copied().unwrap_or(6),
+        _ => {
+            let mut h = if doc == "abovemax" { 7 } else { 1 << 41 };
+            while distinct.contains(&h) {
+                h += 1;
+            }
+            h
+        }
+    };
+    let three: Vec<u64> = {
+        let mut v = vec![distinct.first().copied().unwrap_or(5), distinct.last().copied().unwrap_or(6), 1 << 41, (1 << 41) + 1];
+        if doc == "abovemax" {
+            v.push(7);
+        }
+        v
+    };
+    // the second operand of a binary operation
+    let (y, ny): (MH, Option<KmerMinHash>) = if LOADED_BIN_FNS.contains(&f) {
+        let j = if var == "self" { &dj } else { &oj };
+        match (load_ffi(j), load_native(j)) {
+            (Some((s2, y)), Some((_, ny))) => {
+                signature_free(s2);
+                (y, Some(ny))
+            }
+            _ => return Some(Cmp::Diff),
+        }
+    } else {
+        (ptr::null_mut(), None)
+    };
+    // state-changing operations: the same operation natively, then the whole state is compared
+    let state = |nat: Option<KmerMinHash>, ok: &mut bool| {
+        if let Some(w) = nat {
+            *ok &= mh_eq(m, &w) && mh_consistent(m);
+        }
+    };
+    match f {
+        "kmerminhash_add_hash" => {
+            let nat = native(|| {
+                n.add_hash(x);
+                n
+            });
+            kmerminhash_add_hash(m, x);
+            state(nat, &mut ok);
+        }
+        "kmerminhash_add_hash_with_abundance" => {
+            let nat = native(|| {
+                n.add_hash_with_abundance(x, 3);
+                n
+            });
+            kmerminhash_add_hash_with_abundance(m, x, 3);
+            state(nat, &mut ok);
+        }
+        "kmerminhash_remove_hash" => {
+            let nat = native(|| {
+                n.remove_hash(x);
+                n
+            });
+            kmerminhash_remove_hash(m, x);
+            state(nat, &mut ok);
+        }
+        "kmerminhash_add_many" => {
+            let nat = native(|| {
+                let _ = n.add_many(&three);
+                n
+            });
+            kmerminhash_add_many(m, three.as_ptr(), three.len());
+            state(nat, &mut ok);
+        }
+        "kmerminhash_remove_many" => {
+            let nat = native(|| {
+                let _ = n.remove_many(three.iter().copied());
+                n
+            });
+            kmerminhash_remove_many(m, three.as_ptr(), three.len());
+            state(nat, &mut ok);
+        }
+        "kmerminhash_set_abundances" => {
+            let abs: Vec<u64> = three.iter().map(|_| r.range(1, 9)).collect();
+            let nat = native(|| {
+                let mut pairs: Vec<(u64, u64)> = three.iter().cloned().zip(abs.iter().cloned()).collect();
+                pairs.sort_unstable();
+                let _ = n.add_many_with_abund(&pairs);
+                n
+            });
+            kmerminhash_set_abundances(m, three.as_ptr(), abs.as_ptr(), three.len(), false);
+            state(nat, &mut ok);
+        }
+        "kmerminhash_add_word" => {
+            let w = dna(r, 21);
+            let nat = native(|| {
+                n.add_word(&w);
+                n
+            });
+            let cw = csb(&w);
+            kmerminhash_add_word(m, cw.as_ptr());
+            state(nat, &mut ok);
+        }
+        "kmerminhash_add_sequence" => {
+            let s = dna(r, 60);
+            let nat = native(|| {
+                let _ = n.add_sequence(&s, false);
+                n
+            });
+            let cseq = csb(&s);
+            kmerminhash_add_sequence(m, cseq.as_ptr(), false);
+            state(nat, &mut ok);
+        }
+        "kmerminhash_clear" => {
+            let nat = native(|| {
+                n.clear();
+                n
+            });
+            kmerminhash_clear(m);
+            state(nat, &mut ok);
+        }
+        "kmerminhash_md5sum" => {
+            // (the native answer first: `native` leaves the error channel clean)
+            let want = native(|| n.md5sum());
+            ok &= Some(str_take(kmerminhash_md5sum(m))) == want;
+        }
+        "kmerminhash_get_mins" => {
+            let mut sz = 0usize;
+            let p = kmerminhash_get_mins(m, &mut sz);
+            ok &= !p.is_null() && take_slice(p, sz) == n.mins();
+        }
+        "kmerminhash_get_mins_size" => ok &= kmerminhash_get_mins_size(m) == n.size() && n.size() == n.mins().len(),
+        "kmerminhash_get_abunds" => {
+            let mut sz = 0usize;
+            let p = kmerminhash_get_abunds(m, &mut sz);
+            ok &= match n.abunds() {
+                Some(a) => !p.is_null() && take_slice(p, sz) == a && a.len() == n.mins().len(),
+                None => p.is_null(),
+            };
+        }
+        "kmerminhash_num" => ok &= kmerminhash_num(m) == n.num(),
+        "kmerminhash_max_hash" => ok &= kmerminhash_max_hash(m) == n.max_hash(),
+        "kmerminhash_track_abundance" => ok &= kmerminhash_track_abundance(m) == n.track_abundance(),
+        "kmerminhash_enable_abundance" => {
+            let nat = native(|| {
+                let _ = n.enable_abundance();
+                n
+            });
+            kmerminhash_enable_abundance(m);
+            state(nat, &mut ok);
+        }
+        "kmerminhash_disable_abundance" => {
+            let nat = native(|| {
+                n.disable_abundance();
+                n
+            });
+            kmerminhash_disable_abundance(m);
+            state(nat, &mut ok);
+        }
+        "kmerminhash_hash_function_set" => {
+            let nat = native(|| {
+                let _ = n.set_hash_function(nhf(2));
+                n
+            });
+            kmerminhash_hash_function_set(m, hf(2));
+            state(nat, &mut ok);
+        }
+        "kmerminhash_merge" | "kmerminhash_add_from" | "kmerminhash_remove_from" => {
+            let ny = ny.unwrap();
+            let nat = native(|| {
+                let _ = match f {
+                    "kmerminhash_merge" => n.merge(&ny),
+                    "kmerminhash_add_from" => n.add_from(&ny),
+                    _ => n.remove_from(&ny),
+                };
+                n
+            });
+            match f {
+                "kmerminhash_merge" => kmerminhash_merge(m, y),
+                "kmerminhash_add_from" => kmerminhash_add_from(m, y),
+                _ => kmerminhash_remove_from(m, y),
+            };
+            state(nat, &mut ok);
+        }
+        "kmerminhash_count_common" => {
+            let ny = ny.unwrap();
+            let want = nat_ok(|| n.count_common(&ny, false)).unwrap_or(0);
+            ok &= kmerminhash_count_common(m, y, false) == want;
+        }
+        "kmerminhash_intersection" => {
+            let ny = ny.unwrap();
+            let want = nat_ok(|| {
+                let isect = n.intersection(&ny)?;
+                let mut w = n.clone();
+                w.clear();
+                w.add_many(&isect.0)?;
+                Ok(w)
+            });
+            let q = kmerminhash_intersection(m, y);
+            ok &= match want {
+                Some(w) => !q.is_null() && mh_eq(q, &w),
+                None => q.is_null(),
+            };
+            kmerminhash_free(q);
+        }
+        "kmerminhash_intersection_union_size" => {
+            let ny = ny.unwrap();
+            let want = nat_ok(|| n.intersection_size(&ny)).unwrap_or((0, 0));
+            let mut u = 99u64;
+            let got = kmerminhash_intersection_union_size(m, y, &mut u);
+            ok &= (got, u) == want;
+        }
+        "kmerminhash_jaccard" => {
+            let ny = ny.unwrap();
+            let want = nat_ok(|| n.jaccard(&ny)).unwrap_or(0.0);
+            ok &= bits(kmerminhash_jaccard(m, y)) == bits(want);
+        }
+        "kmerminhash_similarity" => {
+            let ny = ny.unwrap();
+            let want = nat_ok(|| n.similarity(&ny, false, false)).unwrap_or(0.0);
+            ok &= bits(kmerminhash_similarity(m, y, false, false)) == bits(want);
+        }
+        "kmerminhash_angular_similarity" => {
+            let ny = ny.unwrap();
+            let want = nat_ok(|| n.angular_similarity(&ny)).unwrap_or(0.0);
+            ok &= bits(kmerminhash_angular_similarity(m, y)) == bits(want);
+        }
+        "kmerminhash_is_compatible" => {
+            let ny = ny.unwrap();
+            ok &= kmerminhash_is_compatible(m, y) == n.check_compatible(&ny).is_ok();
+        }
+        "hll_update_mh" | "hll_matches" => {
+            let hs = hashes(r, 30);
+            let (h, mut nh) = hll_pair(Some((0.05, 21)), &hs);
+            if f == "hll_update_mh" {
+                let nat = native(|| {
+                    let _ = n.update(&mut nh);
+                    nh
+                });
+                hll_update_mh(h, m);
+                ok &= nat.map(|w| hll_same(h, &w)).unwrap_or(true);
+            } else {
+                let want = native(|| nh.intersection(&n.as_hll()));
+                ok &= hll_matches(h, m) == want.unwrap_or(0);
+            }
+            hll_free(h);
+        }
+        "nodegraph_update_mh" | "nodegraph_matches" => {
+            let hs = hashes(r, 30);
+            let (g, mut ng) = ng_pair("valid", &hs);
+            if f == "nodegraph_matches" {
+                let want = native(|| ng.matches(&n));
+                ok &= nodegraph_matches(g, m) == want.unwrap_or(0);
+            } else {
+                let nat = native(|| {
+                    let _ = n.update(&mut ng);
+                    ng
+                });
+                nodegraph_update_mh(g, m);
+                ok &= nat.map(|w| ng_same(g, &w)).unwrap_or(true);
+            }
+            nodegraph_free(g);
+        }
+        "signature_first_mh" => {
+            let q = signature_first_mh(sig);
+            ok &= !q.is_null() && mh_eq(q, &n) && mh_consistent(q);
+            kmerminhash_free(q);
+        }
+        "signature_get_mhs" => {
+            let mut sz = 0usize;
+            let p = signature_get_mhs(sig, &mut sz);
+            let items = take_slice(p as *const *mut Sketch, sz);
+            let mut got = vec![];
+            for it in items {
+                let b = Box::from_raw(it);
+                got.push(serde_json::to_string(&*b).unwrap());
+            }
+            let want: Vec<String> = nsig.sketches().iter().map(|s| serde_json::to_string(s).unwrap()).collect();
+            ok &= !p.is_null() && got == want;
+        }
+        "signature_push_mh" | "signature_set_mh" => {
+            let s2 = signature_new();
+            let mut n2 = Signature::default();
+            if f.ends_with("push_mh") {
+                signature_push_mh(s2, m);
+                signature_push_mh(s2, m);
+                n2.push(Sketch::MinHash(n.clone()));
+                n2.push(Sketch::MinHash(n.clone()));
+            } else {
+                signature_set_mh(s2, m);
+                n2.reset_sketches();
+                n2.push(Sketch::MinHash(n.clone()));
+            }
+            ok &= sig_same(s2, &n2);
+            let q = signature_first_mh(s2);
+            ok &= !q.is_null() && mh_eq(q, &n) && mh_consistent(q);
+            kmerminhash_free(q);
+            signature_free(s2);
+        }
+        "signature_save_json" => ok &= str_take(signature_save_json(sig)) == sig_json(&nsig),
+        "signatures_save_buffer" => {
+            let list = [sig as *const SourmashSignature];
+            let mut sz = 0usize;
+            let p = signatures_save_buffer(list.as_ptr(), 1, 0, &mut sz);
+            let buf = take_slice(p, sz);
+            ok &= !p.is_null() && buf == serde_json::to_vec(&vec![&nsig]).unwrap();
+            // what was written is read back as the same object
+            if let Ok(text) = std::str::from_utf8(&buf) {
+                match load_ffi(text) {
+                    Some((s3, m3)) => {
+                        ok &= mh_eq(m3, &n) && mh_consistent(m3);
+                        kmerminhash_free(m3);
+                        signature_free(s3);
+                    }
+                    None => ok = false,
+                }
+            }
+        }
+        "signature_eq" => {
+            let want = native(|| nsig == nsig).unwrap_or(false);
+            ok &= signature_eq(sig, sig) == want;
+        }
+        "signature_len" => ok &= signature_len(sig) == nsig.size(),
+        _ => {
+            kmerminhash_free(m);
+            signature_free(sig);
+            return Some(Cmp::Unknown);
+        }
+    }
+    if !y.is_null() {
+        kmerminhash_free(y);
+    }
+    kmerminhash_free(m);
+    signature_free(sig);
     Some(c(ok))
 }
 
